@@ -96,6 +96,9 @@ func NewBranchDispatcher(re *syntax.Regexp) *BranchDispatcher {
 		}
 
 		// Build specialized matcher for this branch
+		if inexactLiteralBranch(branch) {
+			return nil // literal matchers compare raw bytes
+		}
 		branchMatchers[i] = buildBranchMatcher(branch)
 	}
 
@@ -105,6 +108,27 @@ func NewBranchDispatcher(re *syntax.Regexp) *BranchDispatcher {
 		branchMatchers: branchMatchers,
 		canMatchEmpty:  canMatchEmpty,
 	}
+}
+
+// inexactLiteralBranch reports whether the branch is (or starts with) a literal
+// that buildBranchMatcher cannot compare byte-for-byte: a case-folded literal
+// (it stands for its whole fold orbit) or a non-ASCII one.
+func inexactLiteralBranch(re *syntax.Regexp) bool {
+	if re.Op == syntax.OpCapture && len(re.Sub) == 1 {
+		re = re.Sub[0]
+	}
+	if re.Op == syntax.OpConcat && len(re.Sub) > 0 {
+		re = re.Sub[0]
+	}
+	if re.Op != syntax.OpLiteral {
+		return false
+	}
+	for _, r := range re.Rune {
+		if r >= 0x80 {
+			return true
+		}
+	}
+	return re.Flags&syntax.FoldCase != 0
 }
 
 // buildBranchMatcher creates an optimized matcher for a single branch.
